@@ -425,6 +425,34 @@ class Env:
             return "default"
         return r.choice(NAMES_OK)
 
+    def make_plan_shadowed(self, r):
+        """A multi-type asynchronous factory whose FIRST type is already taken (here or in the parent) by a regular
+        resource of the same name; two lookups of another of its types overlap: the one that waits for the other's
+        generation gets the generated object too."""
+        t0, t1 = r.sample(range(N_CLASSES), 2)
+        name = r.choice(NAMES_OK)
+        plan = [{"op": "New", "p": None}, {"op": "Enter", "c": 0},
+                {"op": "AddResource", "c": 0, "v": self.next_static, "vty": t0, "name": name, "types": [t0],
+                 "single": False, "desc": None, "cb": None}]
+        self.next_static += 1
+        c = 0
+        if r.random() < 0.5:
+            plan += [{"op": "New", "p": 0}, {"op": "Enter", "c": 1}]
+            c = 1
+        plan.append({"op": "AddFactory", "c": c, "f": self.next_fid, "kind": "FAsyncSusp", "name": name,
+                     "types": [t0, t1], "single": False, "desc": None})
+        self.next_fid += 1
+        toks = []
+        for _ in range(r.choice([2, 3])):
+            plan.append({"op": "GetBegin", "c": c, "tok": self.next_tok, "t": t1, "name": name, "optional": False})
+            toks.append(self.next_tok)
+            self.next_tok += 1
+        plan += [{"op": "GetEnd", "c": c, "tok": t} for t in toks]
+        plan.append({"op": "GetNowait", "c": c, "t": t1, "name": name, "optional": False})
+        for t in (t0, t1):
+            self.note_key(t, name)
+        return plan
+
     def make_plan(self, r):
         """A structured history: build a tree of depth up to 4, enter and leave some leaves, then
         register resources / factories on inner nodes and look every used pair up from EVERY live
@@ -481,7 +509,8 @@ class Env:
         r = self.r
         hs = self.hs
         if self.plan is None:
-            self.plan = self.make_plan(r) if r.random() < 0.35 else []
+            k0 = r.random()
+            self.plan = self.make_plan_shadowed(r) if k0 < 0.05 else self.make_plan(r) if k0 < 0.38 else []
         if self.plan:
             return self.plan.pop(0)
         if not hs:
